@@ -195,6 +195,15 @@ var constructs = []construct{
 	{"loop", func(f faultKind, id int) (string, bool) {
 		return fmt.Sprintf("for fi = 0; fi < 1; fi += 0 { zq = 1 } en(%d)", id), f.loop
 	}},
+	{"loop-all-passes-continue", func(f faultKind, id int) (string, bool) {
+		return fmt.Sprintf("for fi = 0; fi < 1; fi += 0 { zq = 1 continue } en(%d)", id), f.loop
+	}},
+	{"loop-continue-in-if", func(f faultKind, id int) (string, bool) {
+		return fmt.Sprintf("for fi = 0; fi >= 0; fi += 1 { if fi >= 3 { continue } zq = fi } en(%d)", id), f.loop
+	}},
+	{"loop-forrange-inside", func(f faultKind, id int) (string, bool) {
+		return fmt.Sprintf("for fi = 0; fi < 1; fi += 0 { forRange fk := FVS { if fk == 1 { continue } zq = fk } } en(%d)", id), f.loop
+	}},
 	{"loop-nested", func(f faultKind, id int) (string, bool) {
 		return fmt.Sprintf("if 1 < 2 { for fi = 5; fi > 1; fi = 5 { if fi > 100 { break } } } en(%d)", id), f.loop
 	}},
